@@ -1175,8 +1175,9 @@ fn check_probe(ctx: &Ctx, op: &str, f: &BTreeMap<String, String>, resp: &Resp, o
             return;
         }
         let Some(to) = rc["to"].as_str().map(|s| s.to_lowercase()) else { return };
-        let is_probe = ctx.labels.iter().any(|(id, a)| a.to_lowercase() == to && ctx.kinds.get(id).map(|k| k == "probe").unwrap_or(false));
-        if !is_probe {
+        // the code that lives at the target NOW (an address can be reused by another contract after a clear / rollback)
+        let code_now = ctx.main.call("eth_getCode", json!([to])).ok.and_then(|c| c.as_str().map(|s| s.to_lowercase())).unwrap_or_default();
+        if code_now != format!("0x{}", hex::encode(asm::probe_runtime())) {
             return;
         }
         let Some(tx) = rc["transactionHash"].as_str().and_then(|h| ctx.main.call("eth_getTransactionByHash", json!([h])).ok) else { return };
@@ -2315,7 +2316,8 @@ pub fn exec_crash(lines: &[String], out: &mut Out, scratch: &Path, ops_file: &Pa
         }
         let next = std::sync::atomic::AtomicUsize::new(0);
         let results: std::sync::Mutex<Vec<(usize, Vec<&'static str>, Vec<(&'static str, String)>)>> = std::sync::Mutex::new(Vec::new());
-        let workers = std::thread::available_parallelism().map(|n| n.get()).unwrap_or(4).min(10);
+        // every worker holds two open engines (27 RocksDB instances each): bounded by the file-descriptor limit
+        let workers = std::thread::available_parallelism().map(|n| n.get()).unwrap_or(4).min(if exhaustive { 4 } else { 10 });
         std::thread::scope(|sc| {
             for _ in 0..workers {
                 sc.spawn(|| loop {
